@@ -15,7 +15,7 @@ import (
 var ghostBuiltins = map[string]bool{
 	"requires": true, "ensures": true, "ensuresGoal": true, "assert": true, "assume": true, "imp": true, "iff": true, "old": true,
 	"forall": true, "exists": true, "modifiesTail": true, "modifiesElems": true, "modifiesPtr": true, "modifiesAll": true,
-	"freshSlice": true, "sameBase": true, "sameArray": true, "suffixOf": true, "disjointFromTail": true, "bytesEq": true, "strBytesEq": true, "allocated": true, "unchangedElems": true,
+	"freshSlice": true, "sameBase": true, "sameArray": true, "suffixOf": true, "viewOf": true, "disjointFromTail": true, "bytesEq": true, "strBytesEq": true, "allocated": true, "unchangedElems": true,
 	"covers": true,
 }
 
